@@ -5,6 +5,7 @@ package main
 import (
 	"fmt"
 	"go/ast"
+	"go/token"
 	"go/types"
 	"math"
 	"os"
@@ -53,7 +54,7 @@ func (v *Verifier) newCtx(key string) (*FnCtx, error) {
 		errGlobals: map[string]bool{}, boxedScalars: map[types.Object]string{}, typeTags: map[string]bool{},
 		closureLits: map[types.Object]*ast.FuncLit{}, inModScan: map[*ast.FuncLit]bool{}, hiddenIdx: map[ast.Node]types.Object{},
 		rangeIdx: map[ast.Node]types.Object{}, rangeLen: map[ast.Node]string{}, callOrds: map[*ast.CallExpr]int{},
-		nocontract: map[string]bool{}, externNoCon: map[string]bool{}, inTrial: map[ast.Node]bool{}, iterExtra: map[ast.Node][]types.Object{}, autoFramed: map[string]bool{}, named: map[string]string{}, inlining: map[string]int{}}
+		nocontract: map[string]bool{}, externNoCon: map[string]bool{}, inTrial: map[ast.Node]bool{}, iterExtra: map[ast.Node][]types.Object{}, autoFramed: map[string]bool{}, named: map[string]string{}, inlining: map[string]int{}, gotoTargets: map[string]bool{}, gotoActive: map[string]bool{}}
 	c.nopanic = con.Flags["nopanic"]
 	c.ieee = con.Flags["ieee"]
 	c.declSeq(SStr)
@@ -61,6 +62,10 @@ func (v *Verifier) newCtx(key string) (*FnCtx, error) {
 	n := 0
 	ast.Inspect(fd, func(nd ast.Node) bool {
 		switch x := nd.(type) {
+		case *ast.BranchStmt:
+			if x.Tok == token.GOTO && x.Label != nil {
+				c.gotoTargets[x.Label.Name] = true
+			}
 		case *ast.ForStmt, *ast.RangeStmt:
 			n++
 			c.loopOrd[nd] = n
@@ -135,6 +140,11 @@ func (v *Verifier) verifyFunc(key string, splitName, splitCase string, splitCond
 		}
 		val := c.havocVal(nil, o.Type(), "in_"+id.Name)
 		c.paramFacts(st, val)
+		if c.con.Flags["nonnil-params"] && val.S == SInt {
+			if _, isPtr := o.Type().Underlying().(*types.Pointer); isPtr {
+				st.assume(tNot(tEq(val.T, "0")))
+			}
+		}
 		st.vars[o] = val
 		c.pre.vars[o] = val
 		c.entry[id.Name] = val
@@ -348,7 +358,7 @@ func (v *Verifier) verifyLemma(ax *Axiom) *FuncResult {
 		entry: map[string]*Val{}, loopOrd: map[ast.Node]int{}, assumes: map[string]bool{}, lits: map[string]string{},
 		inputs: map[string]string{}, usedCons: map[string]bool{}, labels: map[string]int{}, nObl: map[string]int{},
 		errGlobals: map[string]bool{}, boxedScalars: map[types.Object]string{}, typeTags: map[string]bool{},
-		nocontract: map[string]bool{}, externNoCon: map[string]bool{}, inTrial: map[ast.Node]bool{}, iterExtra: map[ast.Node][]types.Object{}, autoFramed: map[string]bool{}, named: map[string]string{}, inlining: map[string]int{}}
+		nocontract: map[string]bool{}, externNoCon: map[string]bool{}, inTrial: map[ast.Node]bool{}, iterExtra: map[ast.Node][]types.Object{}, autoFramed: map[string]bool{}, named: map[string]string{}, inlining: map[string]int{}, gotoTargets: map[string]bool{}, gotoActive: map[string]bool{}}
 	if len(c.con.Lemmas) == 0 {
 		c.con.Lemmas = []string{"-none-"}
 	}
